@@ -1467,11 +1467,15 @@ pub fn check(scn: &ClientScn, log: &[Ev], horizon_reached: bool, sim: &Sim) -> V
             if dispatch_killed.is_none() && !panicked {
                 if !dispatch_done.as_ref().map(|d| d.0 < ni).unwrap_or(false) {
                     v.push(viol("C10", "eof-hang", &["dispatch"], format!("read side ended at seq {eseq}; dispatch still running at idle seq {ni}")));
+                    // the same thing seen from C09: end-of-stream at any point, whatever the
+                    // write side is doing, must not leave the dispatch (and its calls) hanging
+                    v.push(viol("C09", "hang", &["eof", "dispatch"], format!("read side ended at seq {eseq}; dispatch still running at idle seq {ni}")));
                 }
                 for (i, c) in calls.iter().enumerate() {
                     if let Some((iseq, _)) = c.invoke {
                         if iseq < eseq && c.abandon.is_none() && !c.resolve.as_ref().map(|r| r.0 < ni).unwrap_or(false) {
                             v.push(viol("C10", "eof-hang", &["call"], format!("read side ended at seq {eseq}; call {i} still pending at idle seq {ni}")));
+                            v.push(viol("C09", "hang", &["eof", "call"], format!("read side ended at seq {eseq}; call {i} still pending at idle seq {ni}")));
                         }
                     }
                 }
